@@ -763,6 +763,14 @@ class ExecMixin:
                 state.assign_from(out)
             if lc.breaks:
                 state.assign_from(self.join_all([state] + lc.breaks))
+            if self.number_locals and not state.bottom:
+                # as at the exit of a token loop: a local joined over the unrolled iterations (continue / break paths) is numbered
+                # here, so that its number depends on the enclosing loops only
+                fid = frame.fid
+                toks = tuple(l.token for l in self.loops)
+                for key, v in list(state.vars.items()):
+                    if key[0] == fid and isinstance(v, Num) and v.sym is None and v.const is None:
+                        state.vars[key] = replace(v, sym=("opq", frame.label, key[1], toks, self.site_id("opq-loop-exit", node)))
             return
         lid = self.site_id("for", node)
         # coverage of a family parameter's domain is decided by length-term equality at generalisation time;
